@@ -17,6 +17,7 @@ fail=0
 if [ "$MODE" = full ]; then RUNS=3000; SEEDS="1 2 3 4 5 6 7 8"; ISO=200000; else RUNS=1500; SEEDS="1 7"; ISO=30000; fi
 "$SIM/target/rel/release/ohsim" selftest iso $ISO || fail=2
 "$SIM/target/dbg/debug/ohsim" selftest iso 5000 || fail=2
+"$SIM/target/rel/release/ohsim" selftest partition || fail=2
 for id in $IDS; do
   for prof in rel dbg; do
     if [ $prof = rel ]; then BIN="$SIM/target/rel/release/ohsim"; else BIN="$SIM/target/dbg/debug/ohsim"; fi
